@@ -5,7 +5,7 @@
    library record, and all raw namespaces. *)
 From Coq Require Import ZArith List Bool Lia.
 From Batchie Require Import Lib.Sexp Lib.PyRt Model.Cli Generated.SrcCli Generated.SrcCliArgs Proofs.PyRtLemmas
-  Proofs.C06SourceCli Proofs.C18SourceArgs Proofs.C18SourceIntrospect.
+  Proofs.C06SourceCli Proofs.C18SourceArgs_Cast Proofs.C18SourceIntrospect.
 Import ListNotations.
 Open Scope Z_scope.
 
